@@ -349,7 +349,6 @@ PINNED = {
     ("add.c", "_GD_Add"): [
         "if(!(mask&2)&&E->EN(bit,numbits)<1)",
         "elseif(!(mask&1)&&E->EN(bit,bitnum)<0)",
-        "elseif(!(mask&3)&&E->EN(bit,bitnum)+E->EN(bit,numbits)-1>63)",
     ],
 }
 MACROS = {
@@ -421,6 +420,15 @@ def main():
             if form == "SliceUnknown":
                 problems.append("PROBLEM %s:%s: slice bound guard not recognised" % (f, fn))
         forms[fn] = form
+    # shape of the BIT range test in _GD_Add
+    bit_form = "BitUnknown"
+    b_ = re.sub(r"\s+", "", fnbodies.get(("add.c", "_GD_Add"), ""))
+    if "elseif(!(mask&3)&&E->EN(bit,bitnum)+E->EN(bit,numbits)-1>63)" in b_:
+        bit_form = "BitSum"
+    elif "elseif(!(mask&3)&&(E->EN(bit,numbits)>64||E->EN(bit,bitnum)>64-E->EN(bit,numbits)))" in b_:
+        bit_form = "BitSub"
+    else:
+        problems.append("PROBLEM add.c:_GD_Add: BIT range test not recognised")
     pinned = {}
     for (f, fn), pats in PINNED.items():
         body = fnbodies.get((f, fn))
@@ -452,6 +460,8 @@ def main():
     o.append("(* GENERATED by translate/tr_guards.py -- do not edit *)")
     o.append("From Coq Require Import List String. Import ListNotations. Open Scope string_scope.")
     o.append("Inductive slice_form := SliceSum | SliceSub | SliceUnknown.")
+    o.append("Inductive bit_form := BitSum | BitSub | BitUnknown.")
+    o.append("Definition addbit_form : bit_form := %s." % bit_form)
     for f, fn in SLICE_FUNCS:
         o.append("Definition slice_form_%s : slice_form := %s." % (fn.strip("_"), forms[fn]))
     o.append("Definition slice_forms : list (string * slice_form) := [%s]." % "; ".join(
@@ -461,7 +471,7 @@ def main():
     o.append("Definition macros_pinned : list (string * bool) := [%s]." % "; ".join(
         "(%s, %s)" % (coq_str(k), "true" if v else "false") for k, v in sorted(macro_ok.items())))
     open(os.path.join(GEN, "GuardForms.v"), "w").write("\n".join(o) + "\n")
-    json.dump({"recurse_table": table, "slice_forms": forms, "pinned": pinned, "macros": macro_ok, "problems": problems},
+    json.dump({"recurse_table": table, "slice_forms": forms, "bit_form": bit_form, "pinned": pinned, "macros": macro_ok, "problems": problems},
               open(os.path.join(GEN, "guards.json"), "w"), indent=1)
     for p in problems:
         print(p)
